@@ -21,6 +21,7 @@ import DSymVerif.Proofs.CoversOrientedDeg
 import DSymVerif.Proofs.CoversMonitors
 import DSymVerif.Proofs.CoversWired
 import DSymVerif.Proofs.CoversIso
+import DSymVerif.Proofs.CoversComplete
 import DSymVerif.Proofs.DSetExamples
 
 namespace DSymVerif.C05
@@ -403,6 +404,39 @@ theorem covers_pairwise_nonisomorphic (ds : DSymData) (hs : ValidSym ds) (hsz : 
         ∃ cs, Covers.covers ds k fuel = .ok cs ∧
           cs.Pairwise (fun c1 c2 => ∀ φ, ¬ (c2.size = c1.size ∧ CoverIso ds c1 c2 c1.size φ))) :=
   CoversP.covers_pairwise_nonisomorphic hs hsz hdim hconn k fuel
+
+example : ValidSym (DSymData.ofSimple ex2) ∧ (DSymData.ofSimple ex2).view.isConnected = true :=
+  ⟨ex2_validSym, by decide +kernel⟩
+
+/-- **covers_exactly_the_coverings.**  For every connected valid symbol `ds` and every bound `k` the
+    list `cs` returned by the model of `covers(ds, k)` (enough fuel) is a complete irredundant system
+    of representatives of the connected coverings of `ds` with at most `k` sheets up to isomorphism
+    over `ds`, "covering" meaning `IsCoverOf` (valid symbol on `n·|ds|` chambers, projection
+    commuting with every operation, all degrees preserved, complete/connected with `ds`):
+    * every entry is a connected covering with at most `max k 1` sheets;
+    * no two entries at different positions are isomorphic over `ds`;
+    * every covering `c` with `j ≤ k` sheets is isomorphic over `ds` (`CoverIso`: injective map of
+      the chambers commuting with the projection and with every operation) to an entry.
+    Proof of the last part (Proofs/CoversGauge … CoversComplete): the sheets of `c` are renumbered
+    chamber by chamber along `spanning_tree(ds)` so that tree facets keep the sheet; the gauged
+    sheet permutations of the facets satisfy every relator of the textbook group (pairing: the
+    operations of `c` are involutions; tree: by the gauge; 2-orbit walks to the power `v`: the
+    degrees of `c` are those of `ds`, so `r·v` is a period of every chamber of `c`), i.e. they are
+    a transitive (`c` connected) permutation representation of the orbifold group; transported to
+    `⟨1..n | relators⟩` through C09 `presents_orbifold_group` it is a valid coset table with the
+    sheets as rows; by C12 `coset_tables_complete` that table is isomorphic to a yielded one, and
+    sheet renumbering followed by the table isomorphism is the isomorphism of covers. -/
+theorem covers_exactly_the_coverings (ds : DSymData) (hs : ValidSym ds) (hsz : 1 ≤ ds.size)
+    (hdim : 1 ≤ ds.dim) (hconn : ds.view.isConnected = true) (k fuel : Nat) :
+    ∃ f, fundamentalGroup ds = .ok f ∧
+      ((BT.dfs (btProblem f.nrGenerators (expandedRelatorSet f.relators) k) (height k)
+          (.ok (Cosets.Table.new f.nrGenerators))).length ≤ fuel →
+        ∃ cs, Covers.covers ds k fuel = .ok cs ∧
+          (∀ c' ∈ cs, ∃ n, IsCoverOf ds c' n ∧ n ≤ max k 1 ∧ c'.view.isConnected = true) ∧
+          cs.Pairwise (fun c1 c2 => ∀ φ, ¬ (c2.size = c1.size ∧ CoverIso ds c1 c2 c1.size φ)) ∧
+          (∀ c j, IsCoverOf ds c j → j ≤ k →
+            ∃ c' ∈ cs, ∃ φ, c'.size = c.size ∧ CoverIso ds c c' c.size φ)) :=
+  covers_exactly hs hsz hdim hconn k fuel
 
 example : ValidSym (DSymData.ofSimple ex2) ∧ (DSymData.ofSimple ex2).view.isConnected = true :=
   ⟨ex2_validSym, by decide +kernel⟩
